@@ -126,6 +126,21 @@ def checkHexQuery (k : Kernel) (q : QLine) (acc0 : Acc) (oracles : Bool := true)
     let hf := n 0; let he := n 1; let r := a.getD 2 0
     acc := acc.cnt "q.adjacent_on_sheet"
     acc := xf acc (toString (optI (k.adjacentHalffaceOnSheet hf he))) (toString r)
+    -- specification by brute force over the live cells (SheetAdjSpec, lean/OVM/Hex/SheetAdj.lean): inside the cell of
+    -- `hf` across `he` to the side face `a`, through `a` into the neighbouring cell, there across the same edge; if the
+    -- cell of `hf` offers no such way, the same walk from the opposite halfface, result flipped
+    let way := fun (h e : Nat) =>
+      (k.liveCells.filter (fun c => (k.cellAt c).contains h)).flatMap (fun c =>
+        ((k.cellAt c).filter (fun x => x != h && (k.hfHes x).contains (opp e))).flatMap (fun x =>
+          (k.liveCells.filter (fun m => (k.cellAt m).contains (opp x))).flatMap (fun m =>
+            (k.cellAt m).filter (fun y => y != opp x && (k.hfHes y).contains (opp e)))))
+    if (k.hfHes hf).contains he then
+      let s1 := way hf he
+      let s2 := (way (opp hf) (opp he)).map opp
+      -- soundness only: a reported halfface is such a continuation (when the function must answer at all depends on
+      -- the enabled incidences and on degenerate gluings, and is left to the model comparison above)
+      if r ≥ 0 && !((s1 ++ s2).contains r.toNat) then
+        acc := acc.add (Finding.oracle "C16" s!"adjacent_halfface_on_sheet({hf},{he}) = {r}, continuations of the sheet across that edge = {showL (s1 ++ s2)}")
   | "hasf" =>
     let hf := n 0; let he := n 1; let r := a.getD 2 0
     acc := acc.cnt "q.adjacent_on_surface"
